@@ -222,7 +222,8 @@ class Info:
         self.continues = (self.permitted and self.decision == "S" and self.first_true is None
                           and not self.deadline_after_sleep)
         # a retry was granted (observable even without hooks)
-        self.retry_granted = bool(self.n_retry or self.handlers or self.before or self.sleeps or (has_budget and self.granted))
+        # (a budget token alone is not evidence of a granted retry: phantom grants are C10/C03's business)
+        self.retry_granted = bool(self.n_retry or self.handlers or self.before or self.sleeps)
         holds = set(self.S)
         if self.refused:
             holds.add("BUDGET_EXHAUSTED")
